@@ -699,62 +699,96 @@ def _program_labels(c, have, want_syms):
 
 
 def _short(e):
-    m = str(e).split("\n")[0]
-    if m.startswith("Cannot serialize op"):
-        return "Cannot serialize op ... " + m[-50:]
-    return m[:60]
+    """First line of an exception text, for display in a violation message only (never used to decide anything)."""
+    return str(e).split("\n")[0][:90]
 
 
-def _allowed_rejections(r):
-    """ValueError messages this recipe may legitimately provoke (content outside the format).  Any other ValueError for a
-    program over the supported vocabulary is a violation: supported content must round-trip, not be refused."""
-    import re
-
-    allowed = []
-    for p in _programs_of(r):
-        ops = p.get("ops", [])
-        if any(o["g"][0] in G.UNSUPPORTED for o in ops):
-            allowed += [r"Cannot serialize op", r"Qubits of type"]
-        if any(o.get("tag_outside") and o.get("ctl") for o in ops):
-            allowed += [r"Cannot serialize op"]
-        if any(t[0] == "unknown" for t in _all_tag_recipes(r)):
-            allowed += [r"Unrecognized Tag"]
-        conds = [c for o in ops for c in o.get("ctl", [])] + [c for co in p.get("cops", []) for c in co.get("ctl", []) + ([co["until"]] if co.get("until") else [])]
-        if any(c[0] == "bool" for c in conds):
-            allowed += [r"Unrecognized Sympy expression type"]  # sympy folded the condition to a constant truth value
-        for o in ops:
-            kinds = {t[0] for t in o.get("tags", [])}
-            if o["g"][0] == "FSim" and {"fsim_model", "two_pulse"} <= kinds:
-                allowed += [r"FSimViaModelTag and TwoPulseFSimTag cannot"]
-            if o["g"][0] == "M" and not re.match(r"^[^:]*$", o["g"][1]["key"]):
-                allowed += [r"Invalid key name"]
-        if any(co.get("ppath") for co in p.get("cops", [])):
-            allowed += [r"Cannot serialize CircuitOperation with parent_path"]
-        if any(o["g"][0] == "M" and o["g"][1].get("confusion") for o in ops):
-            allowed += [r"Cannot serialize measurement with a confusion_map"]
-        if any(v[0] in ("add", "mul", "neg", "pow") for co in p.get("cops", []) for v in co.get("params", {}).values()):
-            allowed += [r"Invalid value parameter type in deserialized CircuitOperation"]
-    return allowed
+SUPPORTED_SYMPY = (sympy.Symbol, sympy.Add, sympy.Mul, sympy.Pow, sympy.Number, sympy.NumberSymbol, sympy.Rel, sympy.And, sympy.Or, sympy.Xor,
+                   sympy.Not, sympy.Indexed, sympy.IndexedBase, sympy.Idx, sympy.Tuple)
 
 
-def _classify_value_error(e, allowed, stage):
-    import re
+def _unsupported_sympy(value):
+    """True when a sympy object inside ``value`` is outside the expression language of the format (e.g. a condition that
+    sympy folded to the constants true/false, complex infinity).  Decided on the object, never on an error message."""
+    if isinstance(value, sympy.Basic):
+        return any(not isinstance(n, SUPPORTED_SYMPY) or n in (sympy.zoo, sympy.nan, sympy.oo, -sympy.oo) for n in sympy.preorder_traversal(value))
+    if isinstance(value, (list, tuple, set, frozenset)):
+        return any(_unsupported_sympy(v) for v in value)
+    if isinstance(value, dict):
+        return any(_unsupported_sympy(v) for v in value.values())
+    return False
 
-    msg = str(e)
-    if any(re.search(a, msg) for a in allowed):
-        raise Reject(f"{stage}: documented ValueError: " + _short(e))
+
+VOCABULARY = (cirq.XPowGate, cirq.YPowGate, cirq.ZPowGate, cirq.PhasedXPowGate, cirq.PhasedXZGate, cirq.SingleQubitCliffordGate, cirq.IdentityGate,
+              cirq.HPowGate, cirq.CZPowGate, cirq.ISwapPowGate, cirq.FSimGate, cirq.MeasurementGate, cirq.WaitGate, cirq.ResetChannel,
+              cg.MultilevelResetViaResonator, cg.LZSResetViaResonator, CouplerPulse, cirq.DepolarizingChannel, cirq.RandomGateChannel,
+              cg.AnalogDetuneQubit, cg.AnalogDetuneCouplerOnly, cg.InternalGate)
+
+
+def _condition_outside(cond):
+    return isinstance(cond, cirq.SympyCondition) and _unsupported_sympy(cond.expr)
+
+
+def _outside_format(circuits):
+    """Reasons, read off the *built objects*, why the format may refuse these circuits with the ValueError its docstrings promise.
+    -> (reasons for serialize, reasons for deserialize).  With no reason a ValueError of either stage is a violation
+    ('format refuses supported content'); with a reason any ValueError of that stage is accepted, whatever its wording."""
+    ser, de = [], []
+    for top in circuits:
+        for c in _all_circuits(top, []):
+            for op in c.all_operations():
+                if isinstance(op, cirq.TaggedOperation) and isinstance(op.sub_operation, cirq.ClassicallyControlledOperation):
+                    ser.append("tags outside a classically controlled operation")
+                if any(_condition_outside(k) for k in op.classical_controls):
+                    ser.append("condition folded to a constant")
+                if any(isinstance(t, G.UnknownTag) for t in op.tags):
+                    ser.append("unknown tag type")
+                base = op.untagged.without_classical_controls().untagged
+                if isinstance(base, cirq.CircuitOperation):
+                    if base.parent_path:
+                        ser.append("CircuitOperation.parent_path")
+                    if base.repeat_until is not None and _condition_outside(base.repeat_until):
+                        ser.append("condition folded to a constant")
+                    if any(isinstance(v, sympy.Basic) and not isinstance(v, sympy.Symbol) for v in base.param_resolver.param_dict.values()):
+                        de.append("CircuitOperation parameter mapped to an expression")
+                    continue
+                if not all(isinstance(q, (cirq.GridQubit, cirq.LineQubit, cirq.NamedQubit, cg.Coupler)) for q in op.qubits):
+                    ser.append("qubit type without proto id")
+                g = base.gate
+                if g is None or not isinstance(g, VOCABULARY):
+                    ser.append("gate outside the vocabulary")
+                    continue
+                if isinstance(g, cirq.RandomGateChannel) and not isinstance(g.sub_gate, VOCABULARY):
+                    ser.append("gate outside the vocabulary")
+                if isinstance(g, cirq.MeasurementGate) and g.confusion_map:
+                    ser.append("confusion_map")
+                if isinstance(g, cirq.FSimGate) and any(isinstance(t, cg.FSimViaModelTag) for t in op.tags) and any(
+                        isinstance(t, cg.TwoPulseFSimTag) for t in op.tags):
+                    ser.append("both FSim translation tags")
+            for m in c:
+                if any(isinstance(t, G.UnknownTag) for t in m.tags):
+                    ser.append("unknown tag type")
+            if any(isinstance(t, G.UnknownTag) for t in c.tags):
+                ser.append("unknown tag type")
+    return ser, de
+
+
+def _classify_value_error(e, reasons, stage):
+    if reasons:
+        raise Reject(f"{stage}: documented ValueError ({reasons[0]})")
     raise Violation(f"{stage} raised ValueError for a program whose content the format supports: {_short(e)}")
 
 
-def _roundtrip_one(c, label="program", allowed=()):
+def _roundtrip_one(c, label="program"):
+    ser, de = _outside_format([c])
     try:
         p1 = S.serialize(c)
     except ValueError as e:
-        _classify_value_error(e, allowed, "serialize")
+        _classify_value_error(e, ser, "serialize")
     try:
         d1 = S.deserialize(p1)
     except ValueError as e:
-        _classify_value_error(e, allowed, "deserialize")
+        _classify_value_error(e, de, "deserialize")
     _cmp_circuit(label, d1, c)
     have = _check_table(p1, [c], label)
     p2 = S.serialize(d1)
@@ -785,8 +819,9 @@ def _build_or_reject(r):
     try:
         c = G.build_program(r)
         cirq.is_parameterized(c)  # a CircuitOperation resolves its body lazily; an inconsistent param_resolver raises here
-    except ValueError as e:
-        raise Reject("cirq refuses the recipe: " + str(e).split("\n")[0][:40])
+    except ValueError:
+        # raised by cirq's own constructors / parameter resolution while *building* the input (not by the code under test)
+        raise Reject("cirq refuses to build the recipe (ValueError)")
     except TypeError:
         # param_resolver of a CircuitOperation maps the duration symbol of a WaitGateWithUnit to an expression: parameter
         # resolution of that gate (not the wire format) fails; such a program cannot be mapped at all -> outside C16's domain
@@ -796,7 +831,7 @@ def _build_or_reject(r):
 
 def oracle_programs(r):
     c = _build_or_reject(r)
-    have, _ = _roundtrip_one(c, allowed=_allowed_rejections(r))
+    have, _ = _roundtrip_one(c)
     return _program_labels(c, have, None)
 
 
@@ -853,12 +888,12 @@ def oracle_multi(r):
                     else:
                         want.append(("", args, circuits[i]))
     except ValueError as e:
-        _classify_value_error(e, _allowed_rejections(r), "serialize")
+        _classify_value_error(e, _outside_format(circuits)[0], "serialize")
     proto = program_pb2.Program.FromString(proto.SerializeToString())
     try:
         got = S.deserialize_multi_program(proto)
     except ValueError as e:
-        _classify_value_error(e, _allowed_rejections(r), "deserialize")
+        _classify_value_error(e, _outside_format(circuits)[1], "deserialize")
     if len(got) != len(want):
         raise Violation(f"multi-program ({form}): {len(want)} circuits came back as {len(got)}")
     for i, ((gk, gargs, gc), (wk, wargs, wc)) in enumerate(zip(got, want)):
@@ -907,8 +942,8 @@ def oracle_args(r):
         try:
             msg = AFL.arg_to_proto(val)
         except ValueError as e:
-            if str(e).startswith("Unrecognized Sympy expression type"):
-                raise Reject("arg_to_proto: documented ValueError: " + str(e)[:40])
+            if _unsupported_sympy(val):
+                raise Reject("arg_to_proto: documented ValueError (sympy object outside the expression language)")
             raise Violation(f"arg_to_proto raised ValueError for a supported value of kind {r['v'][0]}: {str(e)[:80]}")
         msg = program_pb2.Arg.FromString(msg.SerializeToString())
         got = AFL.arg_from_proto(msg)
@@ -925,7 +960,9 @@ def oracle_args(r):
         try:
             msg = AFL.float_arg_to_proto(val)
         except ValueError as e:
-            raise Reject("float_arg_to_proto: documented ValueError: " + str(e)[:40])
+            if _unsupported_sympy(val):
+                raise Reject("float_arg_to_proto: documented ValueError (sympy object outside the expression language)")
+            raise Violation(f"float_arg_to_proto raised ValueError for a supported number/expression: {str(e)[:80]}")
         msg = program_pb2.FloatArg.FromString(msg.SerializeToString())
         got = AFL.float_arg_from_proto(msg, required_arg_name="x")
         _cmp_farg("float arg", got, val)
@@ -937,7 +974,9 @@ def oracle_args(r):
         try:
             msg = AFL.condition_to_proto(c, out=program_pb2.Arg())
         except ValueError as e:
-            raise Reject("condition_to_proto: documented ValueError: " + str(e)[:40])
+            if _condition_outside(c):
+                raise Reject("condition_to_proto: documented ValueError (condition folded to a constant)")
+            raise Violation(f"condition_to_proto raised ValueError for a supported condition: {str(e)[:80]}")
         msg = program_pb2.Arg.FromString(msg.SerializeToString())
         got = AFL.condition_from_proto(msg)
         _cmp_condition("condition", got, c)
@@ -1085,16 +1124,16 @@ def _sweep_case(draw):
 def _build_sweep_or_reject(tree):
     try:
         return G.build_sweep(tree)
-    except ValueError as e:
-        raise Reject("cirq refuses the sweep: " + str(e)[:40])
+    except ValueError:
+        raise Reject("cirq refuses to build the sweep (ValueError)")  # cirq-core constructor, not the code under test
 
 
 def _classify_sweep_error(e, r):
     """ListSweeps with non-uniform keys and seeds beyond int32 are outside the format (ValueError); nothing else is."""
     msg = str(e)
-    if _has_hetero_list("sweeps", r) and "non-uniform keys" in msg:
+    if _has_hetero_list("sweeps", r):
         raise Reject("sweep_to_proto: documented ValueError: ListSweep with non-uniform keys")
-    if "Value out of range" in msg and any(n[0] == "frv" and not -2 ** 31 <= n[3] < 2 ** 31 for s_ in _sweeps_of(r) for n in _sweep_nodes(s_)):
+    if any(n[0] == "frv" and not -2 ** 31 <= n[3] < 2 ** 31 for s_ in _sweeps_of(r) for n in _sweep_nodes(s_)):
         raise Reject("sweep_to_proto: seed does not fit the int32 field")
     raise Violation(f"sweep_to_proto raised ValueError for a sweep the format supports: {msg[:100]}")
 
@@ -1176,7 +1215,7 @@ def oracle_run_context(r):
     try:
         rc = v2.run_context_to_proto(sweepable, reps, compress_proto=bool(r["compress"]), use_float64=f64)
     except ValueError as e:
-        if mismatch and "must match" in str(e):
+        if mismatch:  # documented: lengths of sweeps and repetitions must agree
             return {"nontrivial": False, "length_mismatch_rejected": True}
         _classify_sweep_error(e, r)
     if mismatch:
